@@ -301,6 +301,28 @@ pub fn gen_hdr2(rng: &mut Rng, command: u16) -> Smb2Hdr {
     }
 }
 
+/// Every dialect string an SMB1 negotiate can legitimately name (MS-CIFS / MS-SMB / Samba): a
+/// responder may support any subset of these, but it cannot "select" a name that is none of them.
+pub const SMB1_REAL_DIALECTS: [&str; 17] = [
+    "PC NETWORK PROGRAM 1.0",
+    "PCLAN1.0",
+    "MICROSOFT NETWORKS 1.03",
+    "MICROSOFT NETWORKS 3.0",
+    "LANMAN1.0",
+    "Windows for Workgroups 3.1a",
+    "LM1.2X002",
+    "DOS LM1.2X002",
+    "LANMAN1.2",
+    "LANMAN2.1",
+    "DOS LANMAN2.1",
+    "Samba",
+    "NT LM 0.12",
+    "NT LANMAN 1.0",
+    "CIFS",
+    "SMB 2.002",
+    "SMB 2.???",
+];
+
 const SMB1_DIALECTS: [&str; 8] = [
     "PC NETWORK PROGRAM 1.0",
     "LANMAN1.0",
@@ -314,8 +336,21 @@ const SMB1_DIALECTS: [&str; 8] = [
 
 pub fn gen_smb1_negotiate(rng: &mut Rng) -> Vec<u8> {
     let h = gen_hdr1(rng, 0x72);
-    let n = rng.range(1, 8) as usize;
     let mut d = Vec::new();
+    if rng.chance(1, 12) {
+        // a very long list of short made-up dialects with one real dialect behind it: the
+        // index of the selected dialect needs more than 8 bits
+        let lead = *rng.pick(&[254usize, 255, 256, 257, 300]);
+        for k in 0..lead {
+            d.push(2u8);
+            d.extend_from_slice(format!("q{:03}", k % 1000).as_bytes());
+            d.push(0);
+        }
+        d.push(2u8);
+        d.extend_from_slice(rng.pick(&["NT LM 0.12", "NT LM 0.12", "SMB 2.002", "SMB 2.???"]).as_bytes());
+        d.push(0);
+    }
+    let n = if d.is_empty() { rng.range(1, 8) as usize } else { rng.below(2) as usize };
     for _ in 0..n {
         d.push(2u8);
         let name: Vec<u8> = match rng.below(6) {
